@@ -2,7 +2,7 @@
 (***************************************************************************)
 (* The render pipeline of helm as a state machine (properties C05, C08):   *)
 (*                                                                         *)
-(*   loader.LoadFiles -> ToRenderValuesWithSchemaValidation ->             *)
+(*   loader.LoadFiles -> ProcessDependencies -> schema validation ->      *)
 (*   engine.Render (allTemplates, sortTemplates, parse, execute) ->        *)
 (*   action.renderResources (NOTES loop) -> releaseutil.SortManifests      *)
 (*   (path sort, SplitManifests, manifestFile.sort, kind sort) ->          *)
@@ -24,7 +24,7 @@
 (***************************************************************************)
 EXTENDS RenderBase
 
-CONSTANTS Inputs,      \* set of input records (see RenderBase) explored
+CONSTANTS InputSeq,    \* sequence of the input records (see RenderBase) explored
           Hosts        \* set of host states [canary : {"absent","str","int"}, env : ...]
 
 VARIABLES ci,      \* index of the input (chart, values and options) in InputSeq: never changes
@@ -41,14 +41,14 @@ VARIABLES ci,      \* index of the input (chart, values and options) in InputSeq
 vars == <<ci, host, pc, deps, parse, win, notes, fo, fi, gen, hk, out, kf>>
 
 \* the input is carried as an index (small states); inp is the chart, values and options themselves
-InputSeq == SetToSeq(Inputs)
-inp == InputSeq[ci]
+InputSeqC == InputSeq      \* (a definition, so that TLC evaluates the configured sequence once)
+inp == InputSeqC[ci]
 
 \* "for k := range m": some order of the keys
 IterateMap(S) == SetToSeqs(S)
 
 Init ==
-  /\ ci \in DOMAIN InputSeq
+  /\ ci \in DOMAIN InputSeqC
   /\ host \in Hosts
   /\ pc = "load"
   /\ deps = <<>> /\ parse = <<>> /\ win = 0 /\ notes = "" /\ fo = <<>> /\ fi = 0
@@ -64,6 +64,13 @@ HostChange ==
 Load ==
   /\ pc = "load"
   /\ \E o \in IterateMap(Range(inp.subs)) : deps' = o
+  /\ pc' = "deps"
+  /\ UNCHANGED <<ci, host, parse, win, notes, fo, fi, gen, hk, out, kf>>
+
+\* chartutil.ProcessDependencies rebuilds the dependency list when Chart.yaml declares dependencies
+ProcessDeps ==
+  /\ pc = "deps"
+  /\ deps' = DepsAfterProcess(inp, deps)
   /\ pc' = "schema"
   /\ UNCHANGED <<ci, host, parse, win, notes, fo, fi, gen, hk, out, kf>>
 
@@ -142,7 +149,7 @@ Finish ==
   /\ pc' = "done"
   /\ UNCHANGED <<ci, host, deps, parse, win, notes, fo, fi, gen, hk>>
 
-Next == HostChange \/ Load \/ Schema \/ Engine \/ Notes \/ Files \/ Split \/ Finish
+Next == HostChange \/ Load \/ ProcessDeps \/ Schema \/ Engine \/ Notes \/ Files \/ Split \/ Finish
 
 Spec == Init /\ [][Next]_vars
 
@@ -180,5 +187,5 @@ Partition ==
     /\ C08_Order(inp, Ids(out.manifest), Ids(out.hooks))
 
 \* every behaviour ends: the pipeline has no state without a successor before "done"
-Progress == pc # "done" => ENABLED (Load \/ Schema \/ Engine \/ Notes \/ Files \/ Split \/ Finish)
+Progress == pc # "done" => ENABLED (Load \/ ProcessDeps \/ Schema \/ Engine \/ Notes \/ Files \/ Split \/ Finish)
 =============================================================================
